@@ -81,6 +81,8 @@ theorem no_global_writes : globalWrites.all (fun w => registrationAPI.contains w
 /-- packages of pure computation that code on the linting path may call freely -/
 def purePackages : List String :=
   [ "fmt", "strings", "bytes", "errors", "sort", "unicode", "unicode/utf8", "unicode/utf16", "strconv", "math/big", "regexp",
+    "math", "math/bits", "encoding/binary", "encoding/base64", "encoding/pem", "slices", "maps", "cmp", "html", "hash", "hash/fnv",
+    "crypto/sha1", "crypto/sha256", "crypto/sha512", "crypto/md5", "crypto/elliptic", "crypto/subtle",
     "net/url", "net/mail", "encoding/hex", "encoding/asn1", "encoding/base32", "encoding/json", "reflect",
     "crypto/ecdsa", "crypto/rsa", "crypto/x509/pkix",
     "golang.org/x/text/unicode/norm", "golang.org/x/net/idna", "golang.org/x/crypto/cryptobyte", "golang.org/x/crypto/cryptobyte/asn1",
